@@ -274,6 +274,8 @@ class BufGen:
             ast["blocks"] = [self.stmts(self.r.randint(1, 3), 0, [], False), self.stmts(self.r.randint(1, 3), 0, [], False)]
             if self.r.random() < 0.5:
                 ast["cfg_loop"] = self.r.choice(["%n0", "%n1", "%n2"])  # ^bb1 is the body of a do-while loop written with cf.cond_br
+                if self.r.random() < 0.4:
+                    ast["cfg_rot"] = True  # ... of a top-tested loop whose header (the block that branches back) is laid out behind the body
         if getattr(self, "uses_ix", False):
             ast["index_tables"] = True
         return ast
@@ -468,7 +470,20 @@ def emit(ast) -> str:
         if "%s0" not in late:
             e(2, f"%s0 = memref.alloc() {{vsite = 7 : i64}} : {TS1}")
     stmts(2, ast["body"])
-    if ast.get("blocks") and ast.get("cfg_loop"):
+    if ast.get("blocks") and ast.get("cfg_loop") and ast.get("cfg_rot"):
+        # entry -> hdr(0); bb1(k) -> hdr(k + 1); hdr(j) -> (j < n ? bb1(j) : bb2); bb2 -> return
+        b1, b2 = ast["blocks"]
+        e(2, "cf.br ^hdr(%c0 : index)")
+        e(1, "^bb1(%cfk : index):")
+        stmts(2, b1)
+        e(2, "%cfk1 = arith.addi %cfk, %c1 : index")
+        e(2, "cf.br ^hdr(%cfk1 : index)")
+        e(1, "^hdr(%cfj : index):")
+        e(2, f'%cfc = arith.cmpi slt, %cfj, {ast["cfg_loop"]} : index')
+        e(2, "cf.cond_br %cfc, ^bb1(%cfj : index), ^bb2")
+        e(1, "^bb2:")
+        stmts(2, b2)
+    elif ast.get("blocks") and ast.get("cfg_loop"):
         # entry -> bb1(0); bb1(k) -> (k + 1 < n ? bb1(k + 1) : bb2); bb2 -> return
         b1, b2 = ast["blocks"]
         e(2, "cf.br ^bb1(%c0 : index)")
